@@ -11,6 +11,11 @@ def run(ctx):
                     "Model/Prim.v (meaning of wrapping_* primitives)", "harness/cfh, OCaml driver, extraction (ExtrOcamlBasic only)"]
     ctx.assumptions += ["intrinsic semantics in Model/Regs.v are ours (validated by correspondence C, bit for bit)"]
     ctx.prove("Props/C03.v")
+    # tie 1 (translator): the kernels this property speaks about, regenerated from op_*.rs, ARE the model (Props/C03Gen.v);
+    # a difference is reported as broken and the correspondence runs below search for the concrete input
+    ctx.translate(steps=("kernels",))
+    ctx.prove("Props/C03Gen.v")
+
     symrun.run(ctx, kernels=["KSum", "KDot", "KNorm", "KEuclid"])
     thorough = ctx.tier == "thorough"
     exprun.run_property(ctx, "C:int-reductions", "C03", ops=OPS, tys=INTS,
